@@ -266,7 +266,7 @@ Combine(upd) ==              \* zero updates dropped, same owner and coin merged
             rest == Combine(SelectSeq(Tail(upd), LAMBDA x : ~(x.o = u.o /\ x.c = u.c)))
             sum == SumOver(SelectSeq(upd, LAMBDA x : x.o = u.o /\ x.c = u.c), LAMBDA x : x.v)
         IN IF sum = Zero THEN rest ELSE <<[u EXCEPT !.v = sum]>> \o rest
-WithBv(sq) == [i \in DOMAIN sq |-> [sq[i] EXCEPT !.bv = @.v]]
+WithBv(sq) == [i \in DOMAIN sq |-> [sq[i] EXCEPT !.bv = sq[i].v]]
 RecalcCand(cd) ==
    LET m == MergeUpd(cd.stakes, cd.upd)
        stakes2 == WithBv(m[1]) \o WithBv(Combine(m[2]))
